@@ -61,8 +61,8 @@ Proof.
   - reflexivity.
   - destruct (Nat.leb _ _); [reflexivity|].
     destruct (is_running_obj _ _ _ _) as [[r ob'] ru']. reflexivity.
-  - destruct (n <? 0); [reflexivity|]. destruct (_ || _); [|reflexivity].
-    destruct (pids_sorted _) as [[l low]| |]; reflexivity.
+  - destruct (n <? 0); [reflexivity|].
+    destruct (n =? 0); [destruct (pids_sorted _) as [[l low]| |]; reflexivity|]. destruct (_ && _); reflexivity.
 Qed.
 
 (* ---- kernel events keep the table well formed *)
@@ -243,4 +243,30 @@ Lemma out_of_range_not_listed t n : wf_tbl t -> n < 0 \/ PIDMAX < n -> listedb t
 Proof.
   intros [_ [Hrange _]] Hn. apply zmem_false. unfold listing. intros Hin.
   apply in_map_iff in Hin as [k [Hk Hin]]. specialize (Hrange k Hin). lia.
+Qed.
+
+(* pid_exists(n) when /proc/<n>/status cannot be opened or read (any errno) or has no Tgid line *)
+Lemma zmem_zsort n l : zmem n (zsort l) = zmem n l.
+Proof.
+  destruct (zmem n l) eqn:M.
+  - apply zmem_In. apply zsort_In. now apply zmem_In.
+  - apply zmem_false. rewrite zsort_In. now apply zmem_false.
+Qed.
+
+Theorem pid_exists_fault_spec valid s n f :
+  wf_tbl (tbl s) -> (n = 0 -> tbl s <> []) ->
+  snd (step valid s (PidExistsF n f)) = OBool (spec_pid_exists (tbl s) n).
+Proof.
+  intros Hwf Hne. cbn [step]. unfold spec_pid_exists.
+  destruct (n <? 0) eqn:Hneg.
+  - apply Z.ltb_lt in Hneg. cbn [snd]. f_equal. symmetry. apply (out_of_range_not_listed _ _ Hwf). now left.
+  - destruct (n =? 0) eqn:Hz.
+    + apply Z.eqb_eq in Hz. subst n. unfold pids_sorted.
+      destruct (zsort (listing (tbl s))) as [|low r] eqn:E.
+      * apply (proj1 (zsort_nil _)) in E. unfold listing in E. apply map_eq_nil in E. exfalso. now apply Hne.
+      * cbn [snd]. f_equal. unfold listedb. rewrite <- E. apply zmem_zsort.
+    + destruct ((n <=? PIDMAX) && negb (id_free (tbl s) n)) eqn:C; [reflexivity|].
+      cbn [snd]. f_equal. symmetry. apply andb_false_iff in C as [C|C].
+      * apply Z.leb_gt in C. apply (out_of_range_not_listed _ _ Hwf). now right.
+      * apply negb_false_iff in C. apply id_free_spec in C as [Hnl _]. now apply zmem_false.
 Qed.
